@@ -899,3 +899,35 @@ def visit_delegation_gate(run, ctx):
         run.violation(fam, label, "gate", H.where(fn), "Compiler::visit must start by delegating the whole sub-expression exactly when the context is not hard and the sub-expression is not hard")
     else:
         run.ok(fam, label, H.where(fn), 1, "if !hard && !info.hard { return self.compile_delegate(info) }")
+
+
+def compile_alt(run, ctx):
+    """Alternation template: priority order, fallback chain, jumps to the end (C01)."""
+    fam, label = "TMPL", "compile_alt"
+    fn = S.get_fn(run, ctx, "compile::Compiler::compile_alt", fam, label)
+    if fn is None:
+        return
+    w = H.where(fn)
+    c = H.canon(fn["body"])
+    ps = [p.get("name") for p in fn["params"]]
+    COUNT, HANDLE = ps[1], ps[2]
+    n = 0
+
+    def need(pat, key, what):
+        nonlocal n
+        n += 1
+        m = None
+        for p_ in ([pat] if isinstance(pat, str) else pat):
+            m = m or H.compile_pat("{*pre}" + p_ + "{*post}").match("~" + c + "~")
+        if not m:
+            run.violation(fam, label, key, w, "compile_alt: %s; shape `%s` not found" % (what, pat))
+        return m
+    need("for {i} in 0..%s {" % COUNT, "order", "alternatives must be emitted in index order 0..count (priority = textual order)")
+    m = need(["let {hn} = ({i} != (%s - 1));" % COUNT, "let {hn} = ((%s - 1) != {i});" % COUNT], "has-next", "every alternative except the last needs a fallback")
+    HN = m.group("hn") if m else "has_next"
+    need("let {pc} = self.b.pc(); if %s {self.b.add(Insn::Split((1 + {pc}),MAX))};" % HN, "split", "a non-last alternative starts with Split(next instruction, <patched later>)")
+    need("if (MAX != {last}) {self.b.set_split_target({last},{pc},true)}; {last} = {pc};", "chain", "the previous alternative's Split falls back (second operand) to the start of this alternative")
+    need("%s(self,{i})?; if %s {let {p2} = self.b.pc(); {jmps}.push({p2}); self.b.add(Insn::Jmp(0))}" % (HANDLE, HN), "jump", "after a non-last alternative a Jmp (patched to the end) skips the remaining alternatives")
+    need("let {np} = self.b.pc(); for {j} in {jmps} {self.b.set_jmp_target({j},{np})}; Ok(())", "join", "all jumps are patched to the first instruction after the alternation")
+    need("let {last} = MAX;", "last-init", "no Split is patched before the first alternative")
+    run.ok(fam, label, w, n, "Split(+1, next alternative) ... Jmp(end) chain in index order")
